@@ -97,12 +97,21 @@ def str_request(r):
         olist(o.get("bysetpos")), olist(o.get("bymonth")), olist(o.get("bymonthday")), olist(o.get("byyearday")),
         olist(o.get("byeaster")), olist(o.get("byweekno")), wds, olist(o.get("byhour")), olist(o.get("byminute")), olist(o.get("bysecond")))
 
+# every datetime that came out of a `parser.parse` call made by rrulestr, with the options that call was given
+PO = {}            # id(result) -> (ignoretz, tzinfos-is-the-object-passed)
+KW_DTSTART = datetime.datetime(1997, 9, 2, 9, 0)       # the object passed as dtstart= (recognised by identity)
+TZINFOS = {"BRST": -10800}                             # the object passed as tzinfos=
+
 def cdate(d):
     if d is None:
         return "-"
+    if d is KW_DTSTART:
+        return "kw"
     if not isinstance(d, datetime.datetime):
         return "o"
-    return "c:%d,%d,%d,%d,%d,%d,%d" % (d.year, d.month, d.day, d.hour, d.minute, d.second, int(d.tzinfo is not None))
+    po = PO.get(id(d))
+    return "c:%d,%d,%d,%d,%d,%d,%d%s" % (d.year, d.month, d.day, d.hour, d.minute, d.second, int(d.tzinfo is not None),
+                                         "|?" if po is None else "|i%dt%d" % po)
 
 def cargs(kw):
     def wl(v):
@@ -115,9 +124,12 @@ def cargs(kw):
                      olist(g("byeaster")), olist(g("byweekno")), wl(g("byweekday")), olist(g("byhour")), olist(g("byminute")), olist(g("bysecond"))])
 
 def impl_parse(text, **opts):
-    """run rrulestr with the rrule / rruleset constructors recorded; canonical dump in the model's format"""
+    """run rrulestr with the rrule / rruleset constructor calls and every parser.parse call recorded (which options reached
+    it); canonical dump in the model's format"""
     import dateutil.rrule as R
+    import dateutil.parser as P
     calls = []
+    po_reg, keep = {}, []
     # the classes refer to themselves by their global names (super(rrule, self)), so the names cannot be rebound:
     # wrap the methods instead
     saved = {}
@@ -129,11 +141,22 @@ def impl_parse(text, **opts):
             return orig(self, *a, **kw)
         setattr(cls, name, f)
     wrap(R.rrule, "__init__", lambda a, kw: calls.append(("rrule", dict(kw, **({"freq": a[0]} if a else {})))))
-    wrap(R.rruleset, "__init__", lambda a, kw: calls.append(("set",)))
+    wrap(R.rruleset, "__init__", lambda a, kw: calls.append(("set", dict(kw, **({"cache": a[0]} if a else {})))))
     wrap(R.rruleset, "rrule", lambda a, kw: calls.append(("add_rrule",)))
     wrap(R.rruleset, "exrule", lambda a, kw: calls.append(("add_exrule",)))
     wrap(R.rruleset, "rdate", lambda a, kw: calls.append(("rdate", a[0])))
     wrap(R.rruleset, "exdate", lambda a, kw: calls.append(("exdate", a[0])))
+    # rrule.py calls `parser.parse(...)` through the module object: patch the module attribute
+    R.parser = P
+    orig_parse = P.parse
+    def rec_parse(timestr, parserinfo=None, **kw):
+        d = orig_parse(timestr, parserinfo, **kw)
+        keep.append(d)
+        po_reg[id(d)] = (int(bool(kw.get("ignoretz"))), int(kw.get("tzinfos") is not None and kw.get("tzinfos") is opts.get("tzinfos")))
+        return d
+    P.parse = rec_parse
+    raised = None
+    obj = None
     try:
         with warnings.catch_warnings():
             warnings.simplefilter("ignore")
@@ -142,11 +165,18 @@ def impl_parse(text, **opts):
         raise
     except Exception as ex:
         k = exc_kind(ex)
-        return "err " + ("ValueError" if k == "ParserError" else k), None
+        raised = "err " + ("ValueError" if k == "ParserError" else k)
     finally:
+        P.parse = orig_parse
         for (cls, name), orig in saved.items():
             setattr(cls, name, orig)
-    if calls and calls[0] == ("set",):
+    if raised is not None:
+        # the model stops at the keyword arguments: when the only recorded call is one rrule(...) that then rejected them,
+        # the arguments it was handed are still compared
+        if len(calls) == 1 and calls[0][0] == "rrule":
+            return ("raised", raised, ("rule", calls[0][1], (po_reg, keep))), None
+        return raised, None
+    if calls and calls[0][0] == "set":
         rr, ex, rd, exd = [], [], [], []
         pending = None
         dtstart = None
@@ -157,19 +187,25 @@ def impl_parse(text, **opts):
             elif c[0] == "add_exrule": ex.append(pending)
             elif c[0] == "rdate": rd.append(c[1])
             elif c[0] == "exdate": exd.append(c[1])
-        return ("set", rr, ex, rd, exd), obj
+        return ("set", rr, ex, rd, exd, calls[0][1], (po_reg, keep)), obj
     kw = calls[0][1]
-    return ("rule", kw), obj
+    return ("rule", kw, (po_reg, keep)), obj
+
+def cflag(kw):
+    return "cache=%d" % int(bool(kw.get("cache")))
 
 def canon_impl(res, model_line):
     """format the recorded implementation result like the model's dump, taking from the model line only what the
     implementation cannot show (which of the rdates is the `compatible` dtstart)"""
     if isinstance(res, str):
         return res
+    if res[0] == "raised":
+        return canon_impl(res[2], model_line)
+    PO.clear(); PO.update(res[-1][0])       # the parser.parse calls recorded during this run (results kept alive in res[-1][1])
     if res[0] == "rule":
         kw = res[1]
-        return "ok rule %s {%s}" % (cdate(kw.get("dtstart")), cargs(kw))
-    _, rr, ex, rd, exd = res
+        return "ok rule %s %s {%s}" % (cdate(kw.get("dtstart")), cflag(kw), cargs(kw))
+    _, rr, ex, rd, exd, setkw, _reg = res
     dts = None
     for kw in rr + ex:
         if kw.get("dtstart") is not None:
@@ -180,9 +216,11 @@ def canon_impl(res, model_line):
         rdd = 1; dts = dts if dts is not None else rd[-1]; rd = rd[:-1]
     elif len(m) > 3 and m[1] == "set" and m[2] != "-" and not (rr + ex):
         dts = "model"        # a DTSTART with no rule to carry it: invisible on the implementation side
-    return "ok set %s %d rr=%s ex=%s rd=[%s] exd=[%s]" % (
-        (m[2] if dts == "model" else cdate(dts)), rdd, "|".join("{%s}" % cargs(k) for k in rr), "|".join("{%s}" % cargs(k) for k in ex),
-        ",".join(cdate(d) for d in rd), ",".join(cdate(d) for d in exd))
+    # member rules are built without cache= (only the set itself gets it)
+    member_cache = "" if not any(k.get("cache") for k in rr + ex) else " member-rules-cached"
+    return "ok set %s %d %s rr=%s ex=%s rd=[%s] exd=[%s]%s" % (
+        (m[2] if dts == "model" else cdate(dts)), rdd, cflag(setkw), "|".join("{%s}" % cargs(k) for k in rr), "|".join("{%s}" % cargs(k) for k in ex),
+        ",".join(cdate(d) for d in rd), ",".join(cdate(d) for d in exd), member_cache)
 
 # ------------------------------------------------------------------ spelling variants
 
@@ -231,6 +269,47 @@ MALFORMED = ["FREQ=DAILY;FOO=1", "FREQ=DAILY;INTERVAL=x", "FREQ=NEVER", "FREQ=DA
              "DTSTART:19970902T090000,19970903T090000\nRRULE:FREQ=DAILY", "RDATE;VALUE=DATE:19970902\nRRULE:FREQ=DAILY", "EXRULE;X=1:FREQ=DAILY\nRRULE:FREQ=DAILY",
              "FREQ=DAILY;INT=2", "FREQ=DAILY;INT_LIST=2", "FREQ=DAILY;FREQ", "FREQ=DAILY;BYEASTER=a", "FREQ=DAILY;BYHOUR=1;BYHOUR=x"]
 
+def zify(text, which=("UNTIL", "DTSTART", "RDATE", "EXDATE")):
+    """the same text with a Z (UTC) suffix on the compact date values"""
+    import re
+    out = []
+    for l in text.split("\n"):
+        if "UNTIL" in which:
+            l = re.sub(r"(UNTIL=\d{8}T\d{6})(?!Z)", r"\1Z", l)
+        for name in ("DTSTART", "RDATE", "EXDATE"):
+            if name in which and l.startswith(name + ":"):
+                l = name + ":" + ",".join(v if v.endswith("Z") else v + "Z" for v in l[len(name) + 1:].split(","))
+        out.append(l)
+    return "\n".join(out)
+
+def path_variants(rng, s):
+    """str(rule) re-expressed so that it goes through each code path of _parse_rfc (single-line fast path: bare value and
+    RRULE: line with dtstart=; several lines, one rule; the set path by forceset / RDATE / EXDATE / EXRULE / a second RRULE),
+    with Z spellings and a random choice of the pass-through options"""
+    lines = s.split("\n")
+    rline = [l for l in lines if l.startswith("RRULE:")][0]
+    dline = [l for l in lines if l.startswith("DTSTART:")]
+    def optset(extra):
+        o = dict(extra)
+        if rng.random() < 0.5: o["ignoretz"] = True
+        if rng.random() < 0.3: o["tzinfos"] = TZINFOS
+        if rng.random() < 0.4: o["cache"] = True
+        return o
+    z = (lambda t: zify(t)) if rng.random() < 0.7 else (lambda t: t)
+    out = [(z(rline[6:]), optset({"dtstart": KW_DTSTART})),
+           (z(rline), optset({"dtstart": KW_DTSTART})),
+           (z(rline), optset({}))]
+    if dline:
+        both = dline[0] + "\n" + rline
+        out += [(z(both), optset({})), (z(both), optset({"forceset": True})), (z(both), optset({"dtstart": KW_DTSTART})),
+                (z(both + "\nRDATE:19970910T090000,19970911T090000"), optset({})),
+                (z(both + "\nEXDATE:19970903T090000"), optset({})),
+                (z(both + "\nEXRULE:FREQ=WEEKLY;COUNT=2;UNTIL=19971224T000000"), optset({})),
+                (z(rline + "\nRRULE:FREQ=YEARLY;COUNT=2"), optset({"dtstart": KW_DTSTART})),
+                (z(both), optset({"compatible": True})),
+                (fold(rng, z(rline)), optset({"unfold": True, "dtstart": KW_DTSTART}))]
+    return out
+
 # ------------------------------------------------------------------ correspondence
 
 def correspondence(ctx):
@@ -275,12 +354,17 @@ def correspondence(ctx):
             # single edits
             k = rng.randint(0, len(s))
             cases.append((s[:k] + rng.choice(list(";=,:+-0123456789 \nMOXZ(") + ["BYDAY=", "FREQ="]) + s[k + rng.randint(0, 1):], {}))
+    # the same rule through every code path of _parse_rfc, with the pass-through options and Z spellings
+    for r, s, _ in rules:
+        if rng.random() < 0.7:
+            cases += rng.sample(path_variants(rng, s), 2)
     cases += [(m, {}) for m in MALFORMED] + [(m, {"forceset": True}) for m in MALFORMED[:12]] + [(m, {"unfold": True}) for m in MALFORMED[:12]]
     reqs, impl = [], []
     for text, opts in cases:
         if not all(ord(c) < 128 for c in text) or "TZID" in text.upper():
             continue
-        flags = "%d%d%d0" % (int(opts.get("unfold", False)), int(opts.get("forceset", False)), int(opts.get("compatible", False)))
+        flags = "%d%d%d%d%d%d%d" % (int(opts.get("unfold", False)), int(opts.get("forceset", False)), int(opts.get("compatible", False)),
+                                    int("dtstart" in opts), int(bool(opts.get("ignoretz"))), int(opts.get("tzinfos") is not None), int(bool(opts.get("cache"))))
         try:
             res, _ = impl_parse(text, **opts)
         except Timeout:
@@ -290,6 +374,13 @@ def correspondence(ctx):
     for q, res, g in zip(reqs, impl, got):
         e = canon_impl(res, g)
         g2 = g
+        if isinstance(res, tuple) and res[0] == "raised":
+            # rrule(**kwargs) rejected the arguments (C01's domain), but which arguments and options reached it is still compared
+            if g.startswith("ok") and not (" o" in g or "[o" in g or ",o" in g or "o+" in g) and e != g:
+                ctx.mismatch("rrs.parse", q, e + "   (then rrule() raised: " + res[1] + ")", g)
+            else:
+                ctx.count("rejected_downstream_of_the_model")
+            continue
         if isinstance(res, str) and res.startswith("err") and g.startswith("ok"):
             # the model stops at the kwargs: rrule(**kwargs) / parser.parse(date) may still reject them (C01 / C02 domain)
             ctx.count("rejected_downstream_of_the_model"); continue
@@ -352,6 +443,137 @@ def oracle_sets(ctx):
         except Exception as ex:
             ctx.violation("multi-line text rejected: %s" % exc_kind(ex), {"kind": "set", "text": txt, "opts": sorted(opts)}, repr(ex))
 
+# ---- option plumbing: the same effect on EVERY code path of _parse_rfc
+
+def stamp(d):
+    return "%04d%02d%02dT%02d%02d%02d" % (d.year, d.month, d.day, d.hour, d.minute, d.second)
+
+def view(dts):
+    """what is compared: wall time, UTC offset (None = naive)"""
+    return [(d.replace(tzinfo=None).isoformat(), None if d.tzinfo is None else d.utcoffset().total_seconds()) for d in dts]
+
+def option_scenarios(freq, ds, kw):
+    """(scenario, suffix for date values, options, expected start, expected until-tz, dtstart-line parameter)"""
+    from dateutil import tz
+    brst = tz.tzoffset("BRST", -10800)
+    foo = tz.tzoffset("Foo/Bar", 3600)
+    return {
+        "ignoretz":   dict(suffix="Z", opts={"ignoretz": True}, zone=None),
+        "aware-z":    dict(suffix="Z", opts={}, zone=tz.UTC),
+        "tzinfos":    dict(suffix="BRST", opts={"tzinfos": {"BRST": -10800}}, zone=brst),
+        "tzinfos+ignoretz": dict(suffix="BRST", opts={"tzinfos": {"BRST": -10800}, "ignoretz": True}, zone=None),
+        "tzids-map":  dict(suffix="", opts={"tzids": {"Foo/Bar": foo}}, zone=foo, tzid="Foo/Bar"),
+        "tzids-call": dict(suffix="", opts={"tzids": (lambda name: foo if name == "Foo/Bar" else None)}, zone=foo, tzid="Foo/Bar"),
+        "cache":      dict(suffix="", opts={"cache": True}, zone=None),
+        "no-cache":   dict(suffix="", opts={}, zone=None),
+    }
+
+def run_option_case(ctx, R, freq, ds, kw, scen_name, scen, rng):
+    """one rule, one option scenario, every applicable path; returns False when the scenario does not apply"""
+    from dateutil import tz
+    zone, sfx, opts = scen["zone"], scen["suffix"], scen["opts"]
+    tzid = scen.get("tzid")
+    eds = ds.replace(tzinfo=zone)
+    ekw = dict(kw)
+    if "until" in kw:
+        # with a TZID start the UNTIL of the text is given in UTC
+        ekw["until"] = kw["until"].replace(tzinfo=(tz.UTC if tzid else zone))
+    try:
+        want_rule = build(freq, eds, ekw)
+        want = view(head(iter(want_rule), 8))
+    except (ValueError, Timeout, ZeroDivisionError, OverflowError):
+        return False
+    value = str(build(freq, ds, kw)).split("\n")[1][6:]
+    if "until" in kw:
+        value = value.replace("UNTIL=" + stamp(kw["until"]), "UNTIL=" + stamp(kw["until"]) + ("Z" if tzid else sfx))
+    dline = ("DTSTART;TZID=%s:%s" % (tzid, stamp(ds))) if tzid else ("DTSTART:" + stamp(ds) + sfx)
+    rd = [ds + datetime.timedelta(days=40, hours=1), ds + datetime.timedelta(days=41)]
+    exd = [ds + datetime.timedelta(days=1)]
+    dsfx = "Z" if tzid else sfx
+    dzone = tz.UTC if tzid else zone
+    if tzid and "ignoretz" in opts:
+        return False
+    second = "FREQ=YEARLY;COUNT=2"
+    def rule2(start):
+        return R.rrule(R.YEARLY, count=2, dtstart=start)
+    def set_of(members):
+        st = R.rruleset()
+        for kind, v in members:
+            getattr(st, kind)(v)
+        return st
+    paths = []
+    # (name, text, extra options, expected iterable, expected type)
+    if not tzid:
+        paths += [("bare-value+dtstart=", value, {"dtstart": eds}, want_rule, R.rrule),
+                  ("RRULE-line+dtstart=", "RRULE:" + value, {"dtstart": eds}, want_rule, R.rrule),
+                  ("folded-RRULE-line+unfold+dtstart=", fold(rng, "RRULE:" + value), {"dtstart": eds, "unfold": True}, want_rule, R.rrule),
+                  ("two-RRULE-lines+dtstart=", "RRULE:" + value + "\nRRULE:" + second, {"dtstart": eds},
+                   set_of([("rrule", want_rule), ("rrule", rule2(eds))]), R.rruleset),
+                  ("RRULE-line+forceset+dtstart=", "RRULE:" + value, {"dtstart": eds, "forceset": True}, set_of([("rrule", want_rule)]), R.rruleset)]
+    other = datetime.datetime(1990, 1, 1, tzinfo=zone)
+    paths += [("DTSTART+RRULE", dline + "\n" + "RRULE:" + value, {}, want_rule, R.rrule),
+              ("DTSTART+RRULE, dtstart= overridden by the line", dline + "\nRRULE:" + value, {"dtstart": other}, want_rule, R.rrule),
+              ("DTSTART+bare-value", dline + "\n" + value, {}, want_rule, R.rrule),
+              ("DTSTART+RRULE+forceset", dline + "\nRRULE:" + value, {"forceset": True}, set_of([("rrule", want_rule)]), R.rruleset),
+              ("DTSTART+RRULE+unfold", fold(rng, dline + "\nRRULE:" + value), {"unfold": True}, want_rule, R.rrule),
+              ("DTSTART+RRULE+RDATE", dline + "\nRRULE:" + value + "\nRDATE:" + ",".join(stamp(d) + dsfx for d in rd), {},
+               set_of([("rrule", want_rule)] + [("rdate", d.replace(tzinfo=dzone)) for d in rd]), R.rruleset),
+              ("DTSTART+RRULE+EXDATE", dline + "\nRRULE:" + value + "\nEXDATE:" + ",".join(stamp(d) + dsfx for d in exd), {},
+               set_of([("rrule", want_rule)] + [("exdate", d.replace(tzinfo=dzone)) for d in exd]), R.rruleset),
+              ("DTSTART+2xRRULE", dline + "\nRRULE:" + value + "\nRRULE:" + second, {},
+               set_of([("rrule", want_rule), ("rrule", rule2(eds))]), R.rruleset),
+              ("DTSTART+RRULE+EXRULE", dline + "\nRRULE:" + value + "\nEXRULE:" + second, {},
+               set_of([("rrule", want_rule), ("exrule", rule2(eds))]), R.rruleset),
+              ("DTSTART+RRULE+compatible", dline + "\nRRULE:" + value, {"compatible": True},
+               set_of([("rrule", want_rule), ("rdate", eds)]), R.rruleset)]
+    for name, txt, extra, expect, typ in paths:
+        o = dict(opts); o.update(extra)
+        shown = {k: (v.isoformat() if isinstance(v, datetime.datetime) else ("<callable>" if callable(v) else (sorted(v) if isinstance(v, dict) else v))) for k, v in o.items()}
+        case = {"kind": "options", "scenario": scen_name, "path": name, "text": txt, "opts": shown,
+                "expect": {"freq": freq, "dtstart": ds.isoformat(), "kwargs": repr(kw)}}
+        ctx.case((txt, scen_name, name)); ctx.count("options_" + scen_name); ctx.count("path_" + name.split(",")[0])
+        try:
+            with warnings.catch_warnings():
+                warnings.simplefilter("ignore")
+                got_obj = limited(lambda: R.rrulestr(txt, **o), 2.0)
+                got = view(head(iter(got_obj), 8))
+                wantv = want if expect is want_rule else view(head(iter(expect), 8))
+        except Timeout:
+            continue
+        except Exception as ex:
+            ctx.violation("rrulestr with %s through the path '%s' raised %s where the keyword construction works" % (scen_name, name, exc_kind(ex)), case, repr(ex))
+            continue
+        if not isinstance(got_obj, typ):
+            ctx.violation("path '%s' returned a %s" % (name, type(got_obj).__name__), case, None); continue
+        if got != wantv:
+            ctx.violation("rrulestr with %s through the path '%s' differs from the keyword construction (occurrences / tzinfo)" % (scen_name, name),
+                          case, {"text": got[:4], "keywords": wantv[:4]})
+            continue
+        if "cache" in o or scen_name == "no-cache":
+            cached = getattr(got_obj, "_cache", None) is not None
+            if cached != bool(o.get("cache")):
+                ctx.violation("cache=%s through the path '%s': result %s caching" % (o.get("cache", False), name, "is" if cached else "is not"), case, None)
+    return True
+
+def oracle_options(ctx):
+    from dateutil import rrule as R
+    rng = ctx.subrng("oracle-options")
+    done = 0
+    for i in range(ctx.budget(45, 1500)):
+        if ctx.escalated and len(ctx.violations) >= 5:
+            break
+        freq, ds, kw = gen_kwargs(rng, small_years=False)
+        if kw.get("interval", 1) < 1:
+            kw["interval"] = 1
+        if rng.random() < 0.5 and "until" not in kw:
+            kw.pop("count", None)
+            kw["until"] = ds + datetime.timedelta(days=rng.randint(1, 900), seconds=rng.randint(0, 86399))
+        scens = option_scenarios(freq, ds, kw)
+        for name in rng.sample(sorted(scens), 3):
+            if run_option_case(ctx, R, freq, ds, kw, name, scens[name], rng):
+                done += 1
+    ctx.count("option_scenarios_run", done)
+
 def oracle_malformed(ctx):
     from dateutil import rrule as R
     # (5) unknown or malformed parts raise ValueError
@@ -377,10 +599,11 @@ def oracle_malformed(ctx):
 def oracle(ctx):
     from dateutil import rrule as R, tz
     # the cheap sections first, so that the failing-input search after a correspondence mismatch reaches them early
+    oracle_options(ctx)
     oracle_sets(ctx)
     oracle_malformed(ctx)
     rng = ctx.subrng("oracle")
-    n = ctx.budget(500, 10000)
+    n = ctx.budget(400, 10000)
     shown = 0
     # rules on which the model and str() disagreed come first (failing-input search after a correspondence mismatch)
     seeded = [m["rule"] for m in getattr(ctx, "c13_str_mismatch_rules", [])][:200]
@@ -466,7 +689,47 @@ def oracle(ctx):
             except (ValueError, Timeout):
                 ctx.count("skipped_ctor_or_slow")
 
-KNOWN = {}
+def folded_tzid(case):
+    """D-C13-folded-tzid: unfold, and a fold inside the TZID parameter of a property line"""
+    if case.get("kind") != "options" or not ("unfold" in case.get("opts", {}) or "compatible" in case.get("opts", {})):
+        return False
+    phys = case["text"].replace("\r\n", "\n").split("\n")
+    for i, l in enumerate(phys):
+        if not l.startswith(" ") and ";" in l and ":" not in l and i + 1 < len(phys) and phys[i + 1].startswith(" "):
+            logical = l
+            j = i + 1
+            while j < len(phys) and phys[j].startswith(" "):
+                logical += phys[j][1:]; j += 1
+            if ";TZID=" in logical.upper().split(":")[0]:
+                return True
+    return False
+
+KNOWN = {"D-C13-folded-tzid": lambda v: folded_tzid(v["case"])}
 
 def replay(ctx, payload):
-    print(payload["violation"]["what"]); return False
+    """re-evaluate the recorded failing case on the current tree (option cases are rebuilt from the recorded rule,
+    scenario and path; the others are printed)"""
+    import json, random
+    v = payload["violation"]; case = v["case"]
+    print(v["what"]); print(json.dumps(case, default=str)[:1500])
+    if case.get("kind") != "options":
+        return False
+    from dateutil import rrule as R
+    ns = dict(vars(R)); ns["datetime"] = datetime
+    kw = eval(case["expect"]["kwargs"], ns)
+    ds = datetime.datetime.fromisoformat(case["expect"]["dtstart"])
+    freq = case["expect"]["freq"]
+    class Stub(object):
+        escalated = False
+        def __init__(self): self.violations = []
+        def case(self, *a, **k): pass
+        def count(self, *a, **k): pass
+        def violation(self, what, c, detail): self.violations.append({"what": what, "case": c, "detail": detail})
+    stub = Stub()
+    scen = option_scenarios(freq, ds, kw)[case["scenario"]]
+    for attempt in range(8):          # folding positions are random; the other paths are deterministic
+        run_option_case(stub, R, freq, ds, kw, case["scenario"], scen, random.Random(attempt))
+    failing = [x for x in stub.violations if x["case"]["path"] == case["path"] and not folded_tzid(x["case"])]
+    for x in failing[:1]:
+        print("still failing:", x["what"], "| text:", repr(x["case"]["text"]), "| options:", x["case"]["opts"])
+    return not failing
